@@ -227,13 +227,8 @@ func runC15(r *hk.Run) {
 	if os.Getenv("VERIF_C15_NO_E2E") == "" {
 		w.endToEnd()
 	}
-	// one round of 16 parallel coqc processes in the quick tier
-	if n := w.r.Dist["coq:emitted"]; r.Quick() && n > 0 {
-		r.ShardSize = (n + 15) / 16
-		if r.ShardSize < 40 {
-			r.ShardSize = 40
-		}
-	}
+	// small shards: a coqc process per ~40 cases stays well below 0.5 GB (the machine is shared)
+	r.ShardSize = 40
 }
 
 var unselectedTypes = []string{"image/png", "application/octet-stream", "application/pdf", "TEXT/HTML", "", "video/mp4; charset=gbk", "application/x-www-form-urlencoded"}
